@@ -147,6 +147,34 @@ theorem C11_code (hg : Gen.Cursors.missAddGuarded = true) (hr : Gen.Cursors.rete
   fun m hm on hist hvalid k =>
     C11_concurrent (codeParams dec cap hdrs lim) hg m hm on (Or.inl hr) hh hist hvalid k
 
+/-! ### The end of the reverse scan: cancelled is not absent -/
+
+/-- how a scan that stopped without having seen the key ends -/
+inductive ScanEnd where
+  | absent    -- "no cursor stored": -1 is returned, and GetCursor caches it
+  | failed    -- an error: nothing is answered, nothing is cached
+  deriving DecidableEq, Repr
+
+/-- The error branch of `getLatestCursorOffset`. The reverse reader reports a cancelled request context exactly like the
+beginning of the log (`codeIsEnd`: the status is ResourceExhausted in both cases), so only a test of the REQUEST CONTEXT can
+tell the two apart; `byCtx` is regenerated from the source (`Gen.Cursors.cancelGuardByCtx`). -/
+def scanEnd (byCtx ctxCancelled codeIsEnd : Bool) : ScanEnd :=
+  if byCtx && ctxCancelled then .failed
+  else if Gen.Cursors.endCodeCmp.evalInt (if codeIsEnd then 8 else 1) 8 then .absent else .failed
+
+/-- a scan cut short by a cancelled or expired request is never taken for "cursor absent" (so -1 is not cached for a cursor
+that WAS stored: the fixed defect `cursor-absent-after-cancelled-fetch`) - for the code as regenerated -/
+theorem cancelled_scan_is_not_absent (codeIsEnd : Bool) :
+    scanEnd Gen.Cursors.cancelGuardByCtx true codeIsEnd = .failed := by
+  have h : Gen.Cursors.cancelGuardByCtx = true := by decide
+  simp [scanEnd, h]
+
+/-- ... and it would be, with a guard that looks at the status code only (the reader reports the end-of-log code) -/
+theorem cancelled_scan_absent_without_ctx_guard : scanEnd false true true = .absent := by decide
+
+/-- a scan that really reached the beginning of the log is "absent" -/
+theorem complete_scan_is_absent : scanEnd Gen.Cursors.cancelGuardByCtx false true = .absent := by decide
+
 /-! ### Overlapping fetches -/
 
 /-- **What a fetch that overlaps other calls returns.** `seen tid` (`Proofs.Cursors.seenStep`) is
